@@ -42,7 +42,8 @@ ClausesG2(r) ==
               /\ \A k \in DOMAIN r.u : r.u[k] >= 0 /\ r.u[k] < gg.h * gg.w )
        THEN << Cl("malformed-input-record", FALSE) >>
        ELSE
-       << Cl("offlattice", r.off = 0),
+       << Cl("no-exception", Len(r.raised) = 0),
+          Cl("offlattice", r.off = 0),
           Cl("extent-is-union-of-squares", r.extent = Extent(gg)),
           Cl("index-cell-contains-point",
              /\ IsPairs(r.px, nq)
@@ -95,7 +96,8 @@ WantG2(r) ==
 ClausesG1(r) ==
     IF ~ (r.w >= 1 /\ r.s > 0 /\ r.s % 4 = 0 /\ r.o % 2 = 0 /\ \A k \in DOMAIN r.u : r.u[k] >= 0 /\ r.u[k] < r.w)
     THEN << Cl("malformed-input-record", FALSE) >>
-    ELSE << Cl("offlattice", r.off = 0),
+    ELSE << Cl("no-exception", Len(r.raised) = 0),
+            Cl("offlattice", r.off = 0),
             Cl("extent-1d", r.extent = Extent1(r.w, r.s, r.o)),
             Cl("grid-1d-centres", r.grid = [k \in DOMAIN r.u |-> Centre1(r.w, r.s, r.o, r.u[k])]) >>
 WantG1(r) == [ extent |-> Extent1(r.w, r.s, r.o), centre0 |-> Centre1(r.w, r.s, r.o, 0) ]
@@ -108,7 +110,8 @@ ClausesShape(r) ==
     LET gg == GeoOf(r) IN
     IF ~ (WellFormed(gg) /\ ParOk(r.par))
     THEN << Cl("malformed-input-record", FALSE) >>
-    ELSE << Cl("shape-mask-is-radial-set",
+    ELSE << Cl("no-exception", Len(r.raised) = 0),
+            Cl("shape-mask-is-radial-set",
                /\ \A k \in 1 .. Len(r.out) - 1 : r.out[k] < r.out[k+1]
                /\ ToSet(r.out) = SetLin(ShapeSet(gg, r.par), gg)) >>
 WantShape(r) ==
@@ -119,6 +122,8 @@ WantShape(r) ==
 Clauses(r) == CASE r.api = "g2" -> ClausesG2(r)
                 [] r.api = "g1" -> ClausesG1(r)
                 [] r.api = "shape" -> ClausesShape(r)
+                \* a public constructor raised while the instance was being built from well-formed inputs
+                [] r.api = "crash" -> << Cl("no-exception", FALSE) >>
                 [] OTHER -> << Cl("unknown-api", FALSE) >>
 Want(r) == CASE r.api = "g2" -> WantG2(r)
              [] r.api = "g1" -> WantG1(r)
@@ -129,6 +134,7 @@ Want(r) == CASE r.api = "g2" -> WantG2(r)
 Aspect(h, w, sy, sx) == (IF h = w THEN "square" ELSE "nonsquare") \o (IF sy = sx THEN "-iso" ELSE "-aniso")
 Sig(r) == CASE r.api = "g2" -> "geometry2d:" \o Aspect(r.g.h, r.g.w, r.g.sy, r.g.sx)
             [] r.api = "g1" -> "geometry1d"
+            [] r.api = "crash" -> "crash:" \o r.call
             [] r.api = "shape" -> "mask:" \o r.par.kind \o ":" \o Aspect(r.g.h, r.g.w, r.g.sy, r.g.sx)
             [] OTHER -> r.api
 
